@@ -344,7 +344,34 @@ def work(case: dict) -> dict:
             d = Path(_S["tmp"]) / it["sub"] if it.get("sub") else Path(_S["tmp"])
             d.mkdir(parents=True, exist_ok=True)
             fp = d / it["name"]
-            fp.write_bytes(b"x\n")
+            made = []
+            if it.get("link"):
+                _S["n_link"] = _S.get("n_link", 0) + 1
+                tgt = d / f"t{_S['n_link']}" / it["link"]
+                tgt.parent.mkdir(parents=True, exist_ok=True)
+                tgt.write_bytes(b"x\n")
+                made.append(tgt)
+                src = tgt if it.get("abs") else Path(os.path.relpath(tgt, d))
+                if it.get("chain"):
+                    mid = d / f"t{_S['n_link']}" / "hop"
+                    mid.symlink_to(Path(os.path.relpath(tgt, mid.parent)) if not it.get("abs") else tgt)
+                    made.append(mid)
+                    src = mid if it.get("abs") else Path(os.path.relpath(mid, d))
+                if fp.is_symlink() or fp.exists():
+                    fp.unlink()
+                fp.symlink_to(src)
+            elif it.get("dirlink"):
+                _S["n_link"] = _S.get("n_link", 0) + 1
+                real = d / f"r{_S['n_link']}" / it["dirlink"]
+                real.mkdir(parents=True, exist_ok=True)
+                (real / it["name"]).write_bytes(b"x\n")
+                made.append(real / it["name"])
+                ld = d / f"linked{_S['n_link']}.docx"
+                ld.symlink_to(real, target_is_directory=True)
+                made.append(ld)
+                fp = ld / it["name"]
+            else:
+                fp.write_bytes(b"x\n")
             arg = fp if it.get("pathobj") else str(fp)
             del hits[:]
             try:
@@ -357,10 +384,11 @@ def work(case: dict) -> dict:
             h = list(hits)
             del hits[:]
             s, e = _route_one(str(fp))
-            try:
-                fp.unlink()
-            except OSError:
-                pass
+            for f_ in [fp] + made:
+                try:
+                    f_.unlink()
+                except OSError:
+                    pass
             out.append({"res": res, "hits": h, "sup": s, "get": e})
         base["d"] = out
         return base
@@ -399,6 +427,10 @@ STEMS = [
     "report", "my report", "a.b.c", "archive.tar", "x.pdf", "v1.0-final (2)", "ünïcödé", "文件", "отчёт", "emoji😀",
     "q?x=1", "a#b", "100%25", "x.", "-", " ", "a b.c d", "UPPER", "x.tar.gz", "résumé.docx", "tab\there",
     "semi;colon,comma", "a:b", "COM1", "x\u200b", "İstanbul", "x.zip.html", "..x", "x..", "'q\"",
+    # names other programs leave next to documents (owner / lock / backup / resource-fork / temp files) and stems with special first or last characters:
+    # the extension still decides
+    "~$report", "~$", "~WRL0001", ".~lock.report", "._report", "#report#", ".#report", "report~", "~report", "$report", "$RECYCLE", "Thumbs", "desktop",
+    " lead", "trail ", ".lead", "-rf", "@eaDir", "%TEMP%", "&amp;", "report (conflicted copy 2024-01-01)", "!important", "+plus", "=eq", "^caret", "`tick", "{brace}", "[1]",
 ]
 SUFFIXES = [
     "/", "\\", "?dl=1", "#page=2", " ", ".", "\n", "\x00", ".txt", ".bak", "~", ":Zone.Identifier", "/.", "/..",
@@ -589,7 +621,9 @@ def _configs(mime_keys: list[str]):
     return cfgs, extra, canary
 
 
-DISPATCH_STEMS = ["report", "my report", "a.b.c", "x.pdf", "ünïcödé 文件", "q?x=1#f", "archive.tar", "UPPER.DOCX", "x."]
+DISPATCH_STEMS = ["report", "my report", "a.b.c", "x.pdf", "ünïcödé 文件", "q?x=1#f", "archive.tar", "UPPER.DOCX", "x.", "~$report", "._report", "#report#", "report~", " lead"]
+# what a symbolic link may point to (the link's own name is what was asked for; the target's name must not matter)
+LINK_TARGETS = ["store/3f2a9c1d7e", "blob", "target.html", "target.pdf", "target.docx", "target.txt", "target.zzz", "target.tar.gz", "TARGET.ZIP", "dir.pdf/noext", "x."]
 DISPATCH_SUBS = ["", "dir.with.dots", "my dir.pdf", "a.tar.gz"]
 
 
@@ -609,6 +643,18 @@ def _dispatch_items(run):
             items.append({"name": rng.choice(DISPATCH_STEMS) + "." + f, "sub": rng.choice(DISPATCH_SUBS), "pathobj": rng.random() < 0.5})
     for n in ["noext", "trailingdot.", "README", "x.tar.gz.txt", "x.txt.tar.gz", "x.tar.gz.bak"]:
         items.append({"name": n, "sub": "", "pathobj": False})
+    # read_file through symbolic links: a link with a routed / unrouted / no extension to a target named differently (relative or absolute link,
+    # link chains, a linked directory on the way): the name that was asked for decides, exactly as for get_extractor
+    exts = sorted(DOC_TABLE)
+    for ext in (exts if not run.quick else rng.sample(exts, 20)):
+        for tgt in rng.sample(LINK_TARGETS, run.n(2, 6)):
+            items.append({"name": rng.choice(DISPATCH_STEMS[:6]) + "." + rng.choice((ext, ext.upper())), "sub": rng.choice(DISPATCH_SUBS), "pathobj": rng.random() < 0.5,
+                          "link": tgt, "abs": rng.random() < 0.5, "chain": rng.random() < 0.25})
+    for name in ["latest", "noext", "link.zzz", "link.", "x.tar.gz.bak", "current.text"]:
+        for tgt in ("target.docx", "target.pdf", "target.txt", "target.tar.gz", "blob"):
+            items.append({"name": name, "sub": "", "pathobj": rng.random() < 0.5, "link": tgt, "abs": rng.random() < 0.5, "chain": False})
+    for ext in rng.sample(exts, run.n(6, 30)):
+        items.append({"name": "f." + ext, "sub": "", "pathobj": False, "dirlink": rng.choice(("real.dir.pdf", "realdir", "real.zip"))})
     return items
 
 
@@ -633,7 +679,7 @@ def _sequence_cases(run, cfgs, canary, wl, universe):
         mapped |= {k.lstrip(".") for k in c.get("suffix", {})} | {k.lstrip(".") for k in c.get("enc", {})}
     unrouted = [e for e in universe if e not in DOC_TABLE and e.isascii() and e.isalnum() and len(e) <= 8 and e not in mapped]
     cases = []
-    for sid in range(run.n(6, 40)):
+    for sid in range(run.n(6, 24)):
         sel = (pick("G", run.n(60, 200)) + pick("C", run.n(150, 500)) + pick("A", 30) + pick("B-dir", 30) + pick("E", 20) + pick("H", 20)
                + pick("F", 40) + pick("D", 20))
         paths = [wl.paths[i] for i in sel]
@@ -706,8 +752,8 @@ def _judge_sequences(run, seq_cases, res, ctx):
     run.count("sequence_route_evaluations", n_eval)
     run.count("sequence_decisions_flipped_to_supported", up)
     run.count("sequence_decisions_flipped_to_unsupported", down)
-    run.require("sequence_steps", n_steps, run.n(40, 250))
-    run.require("sequence_route_evaluations", n_eval, run.n(10000, 100000))
+    run.require("sequence_steps", n_steps, run.n(40, 150))
+    run.require("sequence_route_evaluations", n_eval, run.n(10000, 60000))
     run.require("sequence_decisions_flipped_to_supported", up, run.n(50, 500))
     run.require("sequence_decisions_flipped_to_unsupported", down, run.n(50, 500))
 
@@ -805,7 +851,8 @@ def _run_config(cfg, cases, results, errors):
 def main(run):
     from vlib import core, pool  # noqa: F401  (pool imported here so that the per-config threads do not race on the import)
 
-    run.rule = ("case = (MIME configuration, generator group, extension class, case kind, outcome); non-trivial = both "
+    run.rule = ("case = (MIME configuration, generator group, extension class, case kind, outcome), or (MIME-database change previous>current inside one "
+                "process, extension class, decision flipped?, outcome) for the in-process sequences; non-trivial = both "
                 "is_supported_file and get_extractor were evaluated on the path in a worker of that configuration and the "
                 "returned object was identified through the recording stubs")
     run.assumptions = [
@@ -989,6 +1036,7 @@ def main(run):
         run.require("paths@" + cfg["name"], run.counters.get("paths@" + cfg["name"], 0), int(0.98 * len(wl.paths)))
         run.require("mime_config_in_force@" + cfg["name"], run.counters.get("mime_config_in_force@" + cfg["name"], 0), 1)
         run.require("documented_names_resolved@" + cfg["name"], run.counters.get("documented_names_resolved@" + cfg["name"], 0), len(PUBLIC))
+        run.require("read_file_calls_through_symlinks@" + cfg["name"], run.counters.get("read_file_calls_through_symlinks@" + cfg["name"], 0), run.n(60, 300))
         run.require("read_file_stub_hits@" + cfg["name"], run.counters.get("read_file_stub_hits@" + cfg["name"], 0),
                     int(0.9 * n_routed_d / len(cfgs)))
     run.require("documented_extensions_routed", len(ext_cov_route), len(DOC_TABLE))
@@ -1031,7 +1079,10 @@ def _judge_dispatch(run, cfg, res, ditems, inv_doc, ctx):
         for it, ob in zip(chunk, o["d"]):
             name = it["name"]
             cls, ext, hidden, strong, d = _judge_route(run, cfg, name, (ob["sup"], ob["get"]), inv_doc, ctx, where="read_file-path")
-            feat = (f"{cls}-ext" if strong else ("dotfile" if hidden else cls)) + "@" + cname
+            via = "+symlink" if it.get("link") else ("+linked-directory" if it.get("dirlink") else "")
+            feat = (f"{cls}-ext" if strong else ("dotfile" if hidden else cls)) + via + "@" + cname
+            if via:
+                run.count("read_file_calls_through_symlinks@" + cname)
             rep = {"kind": "dispatch", "config": cfg, "item": it, "obs": ob}
             hits = ob["hits"]
             hit_pubs = sorted({inv_doc.get(h, "?" + h) for h in hits})
